@@ -425,6 +425,37 @@ pub fn gen(tier: &str, seed: u64) -> Vec<String> {
             }
         }
     }
+    // three keys pressed that are no chord, a defined sub-chord among them, then a key that fits no candidate
+    for masks in [vec![0b0011u32, 0b1111], vec![0b0011, 0b0111, 0b1111], vec![0b0110, 0b1111]] {
+        let t = Table { n: 4, masks, timeout: 50 };
+        let cfg = v2_cfg(&t, 0, 0, None, None);
+        for order in permutations(&[0usize, 1, 2]) {
+            for gap in [0u32, 1, 5] {
+                for rel_first in [false, true] {
+                    let mut h = vec![];
+                    for k in &order {
+                        h.push(HEv::Press(0, codes[*k]));
+                        if gap > 0 {
+                            h.push(HEv::Tick(gap));
+                        }
+                    }
+                    h.push(HEv::Press(0, codes[4]));
+                    h.push(HEv::Tick(20));
+                    let mut rel: Vec<usize> = order.clone();
+                    if rel_first {
+                        rel.reverse();
+                    }
+                    rel.push(4);
+                    for k in rel {
+                        h.push(HEv::Release(0, codes[k]));
+                        h.push(HEv::Tick(2));
+                    }
+                    h.push(HEv::Tick(400));
+                    lines.push(mk_line("LAY", false, &cfg, &h));
+                }
+            }
+        }
+    }
     // the reachable capacity panic (DESIGN section 7 row 4): a chord that is never released, 10 times and more
     for n in [9usize, 10, 11, 12] {
         let cfg = "(defcfg concurrent-tap-hold yes)\n(defsrc a b c)\n(deflayer l0 a b c)\n(defchordsv2 (a b) c 100 all-released ())\n";
